@@ -16,9 +16,12 @@ from sa.driver import Ctx
 REPO = '/repo'
 args = [a for a in sys.argv[1:] if not a.startswith('--')]
 per_function = '--per-function' in sys.argv
+DEBUG_STMT = '--stmt-debug' in sys.argv     # insert a debug trace instead of an argument validation
 
 
 def guard_for(f):
+    if DEBUG_STMT:
+        return 'parsec_debug_verbose(20, parsec_debug_output, "enter");'
     ptr = [p for p in f.params if p.get('n') and p.get('ty', '').rstrip().endswith('*')]
     if not ptr:
         return None
